@@ -8,6 +8,7 @@ package mtproto
 import (
 	"context"
 	"crypto/rsa"
+	"encoding/binary"
 	"io"
 	"reflect"
 	"sync"
@@ -323,7 +324,13 @@ func (m *MTProto) readMsg() error {
 func (m *MTProto) processResponse(msg messages.Common) error {
 	var data tl.Object
 	var err error
-	if et, ok := m.expectedTypes.Get(msg.GetMsgID()); ok && len(et) > 0 {
+
+	// hints are registered by id of the request, rpc_result has it right after the crc
+	hintsKey := msg.GetMsgID()
+	if body := msg.GetMsg(); len(body) >= tl.WordLen+tl.LongLen && binary.LittleEndian.Uint32(body) == objects.CrcRpcResult {
+		hintsKey = int(int64(binary.LittleEndian.Uint64(body[tl.WordLen:])))
+	}
+	if et, ok := m.expectedTypes.Get(hintsKey); ok && len(et) > 0 {
 		data, err = tl.DecodeUnknownObject(msg.GetMsg(), et...)
 	} else {
 		data, err = tl.DecodeUnknownObject(msg.GetMsg())
